@@ -30,8 +30,9 @@ prop("C16", "rustfmt never terminates abnormally", "other",
      assumptions=["64-bit target (global size_of usize == 8)"])
 
 prop("C17", "file_lines confines changes to the selected code", "other",
-     ["U01", "U02", "U03", {"unit": "U04", "only": r"^format_lines: reported"}],
-     [{"clause": "overlapping or adjacent ranges behave as their union (Range::merge / adjacent_to / intersects against the set-of-lines view)", "status": "proved", "by": "U01 (Verus)"},
+     ["U01", "U02", "U03", {"unit": "U04", "only": r"^format_lines: reported"}, {"unit": "U33", "only": r"\(file_lines\)|has a line inside the selection|intersect the selection"}],
+     [{"clause": "a run of use / mod / extern crate items none of which has a line inside the selection is emitted byte for byte (each pushed without a rewrite); a run with an intersecting item is handed over as without the restriction", "status": "bounded", "by": "U33 (real walk_reorderable_or_regroupable_items + out_of_file_lines_range! + lookup_line_range on real parsed items: sequences <= 3 x separators x 12 configurations x every single line, adjacent pair, empty, no range, past the end)"},
+      {"clause": "overlapping or adjacent ranges behave as their union (Range::merge / adjacent_to / intersects against the set-of-lines view)", "status": "proved", "by": "U01 (Verus)"},
       {"clause": "normalisation keeps exactly the union; contains_line / intersects / contains_range answer for the union; empty selection selects nothing; order of ranges irrelevant", "status": "bounded", "by": "U02 (native)"},
       {"clause": "diagnostics are issued only for selected lines: the per-line report is empty when the line is not selected (format_line gating, for texts of any length)", "status": "proved", "by": "U03 (Verus: line_errs(sel=false) is empty) + U04 (bounded, real contains_line)"},
       {"clause": "every visitor path consults the guard; lookup_line_range (SourceMap)", "status": "not_decided", "by": "-"}],
@@ -165,16 +166,17 @@ prop("C14", "Configuration is resolved with the documented precedence", "other",
      assumptions=["Config is a shim carrying the option triples the extracted functions touch", "Config::from_toml_path / from_resolved_toml_path / config_path are recording stand-ins in the native part"])
 
 prop("C18", "cargo fmt formats the right targets with the right editions", "exploration",
-     ["U21"],
+     ["U21", "U34"],
      [{"clause": "exit status is non-zero exactly when some rustfmt invocation failed (all vectors of <= 2 real wait statuses incl. signals, <= 3 over representatives; plus real child processes)", "status": "bounded", "by": "U21"},
       {"clause": "each file once, each with the edition declared for its target; one invocation per edition; options passed through unchanged after the files and --edition", "status": "bounded", "by": "U21 (lists of <= 4 targets; recording Command shim)"},
       {"clause": "Target identity/order/hash by path; BTreeSet de-duplicates shared files", "status": "bounded", "by": "U21"},
       {"clause": "selection strategy table (--all / -p / root)", "status": "bounded", "by": "U21"},
-      {"clause": "target discovery through `cargo metadata` (workspace members, path dependencies), unknown package / unusable manifest errors, clap flag translation", "status": "not_decided", "by": "-"}],
+      {"clause": "target discovery: root / -p / --all select exactly the root files of the targets of the current package / the named members / every member and every local path dependency transitively, each with its declared edition; unknown package and unusable manifest are errors before rustfmt is started", "status": "bounded", "by": "U34 (real get_targets* over real `cargo metadata` on generated workspace trees h1..h9 + family f; every cwd and manifest path; KNOWN FINDINGS K-ROOT-SUBDIR, K-ROOT-WSROOT, K-ROOT-VIRTUAL-MANIFEST, K-ALL-FOREIGN-WS)"},
+      {"clause": "clap flag translation (--message-format), cargo's own resolution of manifests", "status": "not_decided", "by": "-"}],
      "Whole file src/cargo-fmt/main.rs verbatim; run_rustfmt is exercised both through a recording Command shim (extracted a second time into a module where Command resolves to the shim) and end-to-end with real child processes that exit or kill themselves as scripted. "
      "cargo-fmt is process/HashMap/String code outside Verus and Kani; hence bounded exploration with a stated domain.",
-     statement_clauses={"U21": "each file once, each with the edition declared for its target ...; its exit status is non-zero exactly when some rustfmt invocation failed"},
-     assumptions=["Target values are built by struct literal (Target::from_target's canonicalisation is not exercised)", "cargo metadata, process spawning and clap are trusted"])
+     statement_clauses={"U21": "each file once, each with the edition declared for its target ...; its exit status is non-zero exactly when some rustfmt invocation failed", "U34": "invokes rustfmt on exactly the root source files of all targets of the selected packages ...; an unknown package or unusable manifest path is an error before anything is formatted"},
+     assumptions=["U21: Target values are built by struct literal", "cargo metadata (the real cargo of the sandbox), process spawning and clap are trusted", "U34: -p naming a local path dependency that is no workspace member: the statement is silent, either answer accepted"])
 
 prop("C19", "format-diff turns a patch into exactly the lines it added", "exploration",
      ["U22"],
@@ -268,12 +270,14 @@ prop("C10", "Import rewriting preserves what is imported", "exploration",
      assumptions=["UseTree values are built with the file's own parse_use_tree test helper plus direct field assignment (visibility, attrs, comment)"])
 
 prop("C11", "Reordering is a deterministic, order-insensitive permutation", "exploration",
-     ["U12", "U13"],
+     ["U12", "U13", {"unit": "U33", "exclude": r"\(file_lines\)|has a line inside the selection|intersect the selection"}],
      [{"clause": "version_sort is a consistent total order on identifiers (reflexive, antisymmetric, transitive; Equal only for identical strings; agrees with the documented rules), incl. digit runs beyond usize", "status": "bounded", "by": "U12 (all pairs of identifiers <= 4/5 over {a,B,_,0,1,9}, all triples <= 2/3, permutations of 4-subsets)"},
       {"clause": "Ord for UseSegment / UseTree is a consistent total preorder for every style edition; imports that differ only in their alias rank equal and keep their relative order; sorting any permutation gives the same sequence", "status": "bounded", "by": "U13 (105 trees x 5 style editions: all pairs, all triples, all orderings of 3/4-subsets)"},
-      {"clause": "mod / extern crate ordering (compare_items over ast::Item), group boundaries (blank lines, #[macro_use], skip), attached attributes and comments travel with their element", "status": "not_decided", "by": "- (span-based, needs rustc_ast items)"}],
+      {"clause": "mod / extern crate ordering: compare_items over REAL ast::Item values is a consistent total preorder per style edition (name, then not-renamed < renamed, then the rename; byte order <= 2021, version sort >= 2024); the real sorting statement gives the same sequence for every permutation", "status": "bounded", "by": "U33 (21 mod / 24 extern crate declarations x 5 style editions: all pairs, triples, permutations of 3-subsets)"},
+      {"clause": "group boundaries: a run handed to the reordering rewriter holds declarations of ONE reorderable kind that is switched on, never a #[macro_use] item, a skipped item, an inline module or another kind, and never spans a blank line where groups are preserved; every item handled once, in source order", "status": "bounded", "by": "U33 (real visit_items_with_reordering / walk_reorderable_or_regroupable_items on real parsed items: all sequences <= 3/4 of 14 spellings x 4 separators x 12 configurations)"},
+      {"clause": "attached attributes and comments travel with their element (rewrite_reorderable_or_regroupable_items' list formatting)", "status": "not_decided", "by": "-"}],
      "Comparator laws are statements about all pairs/triples/permutations; both comparators are string code outside Verus/Kani (Kani does not terminate on 2-byte symbolic strings, measured), so they are enumerated on the natively compiled real text over a stated universe.",
-     statement_clauses={"U12": "the comparison used is a consistent total preorder ... the version-sort of 2024", "U13": "every permutation of a group formats to the same text (imports that differ only in their alias are ranked equal and keep their relative order)"})
+     statement_clauses={"U33": "items are only permuted within a group delimited by blank lines, #[macro_use] items, skipped items or items of another kind; the comparison used is a consistent total preorder", "U12": "the comparison used is a consistent total preorder ... the version-sort of 2024", "U13": "every permutation of a group formats to the same text (imports that differ only in their alias are ranked equal and keep their relative order)"})
 
 PROPS["C13"]["statement_clauses"]["U17"] = "except modules or files that are skipped, matched by `ignore`, marked @generated when generated files are excluded, or any child when skip_children is set or the input is standard input"
 PROPS["C20"]["statement_clauses"]["U25"] = "When rustfmt rewrites a file with --backup ..."
@@ -307,7 +311,7 @@ MANIFEST_TEXT = {
             "note": "ModResolver, ParseSess, Parser are shims; exclusion predicate is a harness-chosen boolean here (its real table: U17)", "technique": T_B},
     "C10": {"text": "Bounded-exhaustive contract check of the real import merge/flatten/normalize/group functions against an independent expansion of a use-tree into its (attributes, visibility, path, alias) leaves, for grammar-generated lists of <= 2/3 trees x all 5 granularities. Several classes of genuine violations (imports_granularity) are recorded as known findings; one was repaired.",
             "note": "UseTree::from_ast and the rewrite to text are not extracted; trees are built with the file's own test parser; real rustc visibility/attribute types", "technique": T_B},
-    "C11": {"text": "Comparator laws (reflexive, antisymmetric, transitive, Equal only for identical elements, permutation-invariance of sort, alias rule, 2015=2018=2021) enumerated over all pairs / triples / permutations of a stated universe on the real version_sort and the real Ord impls of UseSegment/UseTree. Group boundaries and mod/extern-crate ordering are not decided.",
+    "C11": {"text": "Comparator laws (reflexive, antisymmetric, transitive, Equal only for identical elements, permutation-invariance of sort, alias rule, 2015=2018=2021) enumerated over all pairs / triples / permutations of a stated universe on the real version_sort and the real Ord impls of UseSegment/UseTree. The real compare_items / sorting statement / grouping walk (visit_items_with_reordering) are enumerated on real parsed ast::Items (U33). How attributes and comments travel with a moved element is not decided.",
             "note": "string comparators are outside Verus/Kani (measured); universe sizes stated in the evidence", "technique": T_B},
     "C12": {"text": "The property's own exhaustive quantifier (all pairs of line sequences <= 5 over {\"\",a,b}, final newline y/n, context 0..3) is enumerated completely on the real diff/report code with independent oracles (apply-chunks, re-parse, line-number consistency, XML/JSON well-formedness). Bounded stand-in: no deductive back end reaches this String/iterator code.",
             "note": "diff crate and serde_json trusted; Config shim (color, verbose); two recorded known findings for the checkstyle report", "technique": T_B},
@@ -315,10 +319,10 @@ MANIFEST_TEXT = {
             "note": "Kani/CBMC, extractor; Session shim with the real fields; Session::format is a harness-chosen outcome", "technique": T_K},
     "C16": {"text": "Verus discharges machine-integer overflow obligations on the verbatim text of the contracted integer functions for all inputs; bounded native units catch any panic on their enumerated domains (labelled bounded). Parser/catch_unwind/stack clauses are not decided.",
             "note": "Verus/Z3, extractor, 64-bit usize; std::cmp::{min,max} usize shims; everything outside the contracted functions is unverified surroundings", "technique": T_V + " + " + T_B},
-    "C17": {"text": "Range algebra proved in Verus against a set-of-lines view (union semantics of merge/adjacent/intersects, all usize); the FileLines container is checked bounded-exhaustively on the real file text. Visitor-side use of the guard is not decided.",
+    "C17": {"text": "Range algebra proved in Verus against a set-of-lines view (union semantics of merge/adjacent/intersects, all usize); the FileLines container is checked bounded-exhaustively on the real file text; the file_lines guard of the import/module reordering walk is enumerated on real parsed items (U33). The other visitor-side uses of the guard are not decided.",
             "note": "Verus/Z3, extractor; HashMap/iterator/serde code only bounded; SourceMap line lookup unverified", "technique": T_V + " + " + T_B},
-    "C18": {"text": "Bounded-exhaustive contract check of the real cargo-fmt text: status fold over all real wait statuses (vectors <= 2, representatives <= 3) and real child processes, edition grouping / argument vectors over all lists of <= 4 targets with a recording Command shim, Target identity laws, strategy table. Target discovery via cargo metadata is not decided.",
-            "note": "process spawning shimmed (and additionally exercised for real in 9 scenarios); cargo metadata/clap trusted", "technique": T_B},
+    "C18": {"text": "Bounded-exhaustive contract check of the real cargo-fmt text: status fold over all real wait statuses (vectors <= 2, representatives <= 3) and real child processes, edition grouping / argument vectors over all lists of <= 4 targets with a recording Command shim, Target identity laws, strategy table; target discovery (real get_targets* over the real `cargo metadata`) on generated workspace trees for every working directory / manifest path (U34; four known findings).",
+            "note": "process spawning shimmed (and additionally exercised for real in 9 scenarios); the sandbox's cargo (metadata) and clap trusted", "technique": T_B},
     "C19": {"text": "Bounded-exhaustive contract check of the real scan_diff/run_rustfmt text against an independent regex-free reading of the diff (all line sequences <= 3/4 over 16 shapes x -p 0..3 x 4 filters; recording process shim).",
             "note": "regex crate trusted; line numbers <= 2^31; stdin reading and clap not decided", "technique": T_B},
     "C20": {"text": "Complete enumeration of fault points (operation index x {fails clean, fails after partial write, crash after, crash after partial write}) of the loop-free effect sequence of the real FilesWithBackupEmitter text against a recording file-system model; invariant checked after every operation.",
